@@ -455,7 +455,7 @@ def parse_tsan_logs(paths):
             fr = [_frames(b) for b in stacks[:2]]
             while len(fr) < 2:
                 fr.append([])
-            reports.append((kind, fr[0], fr[1], rep_[:12000]))
+            reports.append((kind, fr[0], fr[1], rep_[:60000]))
     return reports
 
 
@@ -501,8 +501,13 @@ def tsan_pass(rep, progs):
             sig = "C15 ThreadSanitizer: data race between %s and %s" % (pair[0], pair[1])
             if sig not in seen:
                 seen[sig] = 1
-                rep.violation(sig, "one of the racing stacks runs through %s; report head:\n%s" % (through[0][0], raw[:9000]),
-                              {"tsan": True, "note": "re-run ./check C15 --tier thorough"})
+                # Not a verdict.  The handshake that orders a stopper's accesses against the stopped thread's goes through
+                # crossbeam's 16-byte AtomicCell (sequence lock: volatile reads validated by fences), which ThreadSanitizer
+                # does not model, so a report here may be a modelling gap as well as a race: on the unchanged tree the
+                # pair Env::repl_define_idx / Env::repl_lookup_idx is reported in most runs and could not be settled
+                # either way.  The reports are listed in the evidence and make the pass inconclusive.
+                rep.inconclusive_note("%s (one of the racing stacks runs through %s)" % (sig, through[0][0]))
+                stats.setdefault("pairs_through_world_stopping_code", []).append(sig)
         else:
             stats["other_not_judged"] += 1
             key = "%s: %s / %s" % (kind, ta[0], tb[0])
